@@ -357,7 +357,23 @@ func (s *State) symIntBinop(op token.Token, w int, signed bool, x, y Value) Valu
 				}
 			}
 		} else {
-			s.abort("symbolic division by a non-constant divisor")
+			// symbolic divisor: Go panics on zero (decided here, may fork), otherwise two's-complement division
+			if s.decide(p.Eq(c, p.BVConst(0, w)), "divisor-zero") {
+				s.goPanicRuntime("integer divide by zero", "errorString")
+			}
+			if signed {
+				if op == token.QUO {
+					bvop = "bvsdiv"
+				} else {
+					bvop = "bvsrem"
+				}
+			} else {
+				if op == token.QUO {
+					bvop = "bvudiv"
+				} else {
+					bvop = "bvurem"
+				}
+			}
 		}
 	case token.LSS:
 		cmp = "lt"
